@@ -443,8 +443,9 @@ impl DOPRI5 {
                     }
                 }
 
-                // Normal exit
-                if last {
+                // Normal exit (also when a regular step ends on xend itself: far from the origin
+                // x + 1.01 h can round onto xend, so that the step is not announced as the last one)
+                if last || x == xend {
                     h = hnew;
                     status = Status::Success;
                     break;
